@@ -70,8 +70,8 @@ PY = "/venv/bin/python"
 METHODS = ["trace", "debug", "info", "notice", "warning", "error", "critical", "result", "exception", "log"]
 LEVEL_NAMES = ["trace", "debug", "info", "notice", "warning", "error", "critical"]
 LOGGER_NAMES = ["gallia.c17", "gallia.scanner.\u00fc7", "gallia.a.b.c"]
-READER_CONTAINERS = ["zst", "plain", "gz", "noprefix"]
-HR_CONTAINERS = ["zst", "plain", "gz", "noprefix", "stdin-file", "stdin-pipe"]
+READER_CONTAINERS = ["zst", "plain", "gz", "noprefix", "mixedprefix"]
+HR_CONTAINERS = ["zst", "plain", "gz", "noprefix", "mixedprefix", "stdin-file", "stdin-pipe"]
 MARK = re.compile(r"#id(\d+)#")
 
 
@@ -486,7 +486,11 @@ def build_log(ctx: Any, logdef: dict[str, Any], regen: dict[str, Any] | None = N
     with gzip.open(d / "log.json.gz", "wb", compresslevel=1) as g:
         g.write(st.raw)
     (d / "noprefix.json").write_bytes(re.sub(rb"(?m)^<\d+>", b"", st.raw))
-    st.paths = {"zst": zst, "plain": d / "log.json", "gz": d / "log.json.gz", "noprefix": d / "noprefix.json",
+    # both line forms in one file (e.g. concatenated or partly post-processed logs): the prefix is dropped from every line whose
+    # index has an odd number of set bits, so prefixed and prefix-less lines follow each other in both directions
+    mixed = [re.sub(rb"^<\d+>", b"", ln) if bin(i).count("1") % 2 else ln for i, ln in enumerate(st.raw.splitlines(keepends=True))]
+    (d / "mixedprefix.json").write_bytes(b"".join(mixed))
+    st.paths = {"zst": zst, "plain": d / "log.json", "gz": d / "log.json.gz", "noprefix": d / "noprefix.json", "mixedprefix": d / "mixedprefix.json",
                 "stdin-file": d / "log.json", "stdin-pipe": d / "log.json"}
     # reach counters of the workload (what was actually written)
     ctx.reach(f"file_level.{logdef['file_level']}")
